@@ -226,6 +226,27 @@ var limitKinds = map[string]struct {
 		func(n int) string { return fmt.Sprint(n) }, func(c Config) int { return regLimit(c) / 3 }, true},
 	"table_from_varargs": {`local t = {} for i = 1, N do t[i] = i end local u = {unpack(t)} return #u`,
 		func(n int) string { return fmt.Sprint(n) }, func(c Config) int { return regLimit(c) }, true},
+	// the same limits reached inside a coroutine, a wrapped coroutine and an xpcall with a handler: the failure follows
+	// the ordinary protocol of that construct (resume returns false and the coroutine is dead; wrap and xpcall deliver it)
+	"unpack_in_coroutine": {`local t = {} for i = 1, N do t[i] = i end local co = coroutine.create(function() return select('#', unpack(t)) end)
+local pok, ok, v = pcall(coroutine.resume, co) if not pok then error("coroutine.resume raised instead of returning false", 0) end
+if coroutine.status(co) ~= "dead" then error("the coroutine is " .. coroutine.status(co) .. " after its body ended", 0) end
+if not ok then error(v, 0) end return v`,
+		func(n int) string { return fmt.Sprint(n) }, func(c Config) int { return regLimit(c) }, true},
+	"unpack_in_wrap": {`local t = {} for i = 1, N do t[i] = i end local w = coroutine.wrap(function() return select('#', unpack(t)) end)
+local ok, v = pcall(w) if not ok then local again = pcall(w) if again then error("a failed wrapped coroutine ran again", 0) end error(v, 0) end return v`,
+		func(n int) string { return fmt.Sprint(n) }, func(c Config) int { return regLimit(c) }, true},
+	"unpack_in_xpcall": {`local t = {} for i = 1, N do t[i] = i end local ok, v = xpcall(function() return select('#', unpack(t)) end, function(m) return m end)
+if not ok then error(v, 0) end return v`,
+		func(n int) string { return fmt.Sprint(n) }, func(c Config) int { return regLimit(c) }, true},
+	"recursion_in_xpcall": {`local function r(n) if n == 0 then return 0 end return 1 + r(n - 1) end local ok, v = xpcall(function() return r(N) end, function(m) return m end)
+if not ok then error(v, 0) end return v`,
+		func(n int) string { return fmt.Sprint(n) }, func(c Config) int { return c.CallStackSize }, false},
+	"recursion_in_wrap": {`local function r(n) if n == 0 then return 0 end return 1 + r(n - 1) end local co = coroutine.create(r)
+local pok, ok, v = pcall(coroutine.resume, co, N) if not pok then error("coroutine.resume raised instead of returning false", 0) end
+if coroutine.status(co) ~= "dead" then error("the coroutine is " .. coroutine.status(co) .. " after its body ended", 0) end
+if not ok then error(v, 0) end return v`,
+		func(n int) string { return fmt.Sprint(n) }, func(c Config) int { return c.CallStackSize }, false},
 	"concat_many": {`local t = {} for i = 1, N do t[i] = "x" end return #table.concat(t)`,
 		func(n int) string { return fmt.Sprint(n) }, func(c Config) int { return regLimit(c) / 2 }, true},
 }
@@ -331,7 +352,14 @@ var chkLimit = vf.Register("limit_straddle", func(k *vf.C, c *LimitCase) error {
 				if val != lk.expect(n) {
 					return fmt.Errorf("%s N=%d under %+v: succeeded with %q, expected %q", c.Kind, n, c.Config, val, lk.expect(n))
 				}
-				if firstFail >= 0 && n > firstFail+1 && pass == 0 {
+				// (raising "registry overflow" on a full registry force-grows it by one slot so that the message can be
+				// pushed - twice when an xpcall handler cannot be pushed either -, so in a state that is used again the
+				// limit creeps up by that much per caught overflow)
+				slack := 1
+				if lk.reg {
+					slack += 2 * cycles
+				}
+				if firstFail >= 0 && n > firstFail+slack && pass == 0 {
 					return fmt.Errorf("%s under %+v: N=%d succeeds although the smaller N=%d overflowed", c.Kind, c.Config, n, firstFail)
 				}
 				if n <= lim/2 {
